@@ -391,14 +391,16 @@ def C11(tier, seed):
 
 
 def C12(tier, seed):
-    multi("C12", tier, seed, ["hll", "hllv", "theta", "fi", "cm", "bloom"],
+    multi("C12", tier, seed, ["hll", "hllv", "theta", "cpc", "fi", "cm", "bloom", "td"],
           [("MC_Hll", "MC_Hll_A.cfg")],
           ["the layouts are written in the specification (HllFormat.tla, ThetaFormat.tla, Enc* operators of the trace specifications) from the Java/C++ "
            "format documentation, not from the library's writer; serialize() output is compared byte for byte with the specification's encoding of the "
            "state the specification itself computed for the recorded history",
            "f64 fields (HLL hip/kxq, theta as 8 bytes, hashes) are passed through as bytes: the specification fixes their position, not their value",
-           "CPC's entropy-coded payload and t-digest images are not re-encoded by the specification (CPC: opaque; t-digest: decoded by the harness's "
-           "independent decoder whose output the structural checks of C10/C15 consume); agreement with Java/C++ rests on the transcription, reference images are absent"],
+           "CPC: the preamble (2..9 ints: flags, first interesting column, coupon count, table entry count, HIP fields and word counts in the order of the "
+           "eight Java formats) is re-encoded by the specification, the entropy-coded words are opaque (only their total length is checked); t-digest: "
+           "the whole double-flavour image is re-encoded (means and extremes passed through as bytes); agreement with Java/C++ rests on the "
+           "transcription, reference images are absent"],
           "byte-exact comparison at every checkpoint of the HLL (all modes/types, exceptions, out-of-order), theta compact (v3 and v4 incl. bit packing "
           "on bit sequences for <= 300 entries, reference packer above), frequent items, Count-Min and Bloom traces")
 
